@@ -173,4 +173,134 @@ theorem derDecode_derEncode (r s : Nat) (h : derLen r s < 2 ^ 32) : derDecode (d
   rw [e2]
   simp only [decInt_encInt]
 
+theorem intLen_le (n k : Nat) (h : n < 256 ^ k) : intLen n ≤ k + 1 := by
+  have hb := byteLen_le_of_lt n k h
+  unfold intLen encIntContent
+  have hl := minBE_length n
+  split
+  · simp
+  · rename_i b rest heq
+    rw [heq] at hl
+    simp only [List.length_cons] at hl
+    split <;> simp only [List.length_cons] <;> omega
+
+theorem intLen_pos (n : Nat) : 0 < intLen n := by
+  unfold intLen
+  have := encInt_ne_nil n
+  cases h : encIntContent n with
+  | nil => exact absurd h this
+  | cons _ _ => simp
+
+theorem tlvLen_le (l : Nat) (h : l < 2 ^ 32) : tlvLen l ≤ l + 6 := by
+  have := encLen_length_le l h
+  unfold tlvLen; omega
+
+/-- numbers below `256 ^ k` (k up to 2^30 bytes) always have a DER signature the decoder can read -/
+theorem derLen_lt (r s k : Nat) (hk : k ≤ 2 ^ 30) (hr : r < 256 ^ k) (hs : s < 256 ^ k) : derLen r s ≤ 2 * k + 20 := by
+  have h1 := intLen_le r k hr
+  have h2 := intLen_le s k hs
+  have e30 : (2 : Nat) ^ 32 = 4 * 2 ^ 30 := by decide
+  have t1 := tlvLen_le (intLen r) (by omega)
+  have t2 := tlvLen_le (intLen s) (by omega)
+  have t3 := tlvLen_le (tlvLen (intLen r) + tlvLen (intLen s)) (by omega)
+  unfold derLen; omega
+
+/-! ### `ECDSASignature` on raw signatures -/
+
+theorem rawSig_length (c : Curve) (r s : Nat) : (rawSig c r s).length = 2 * c.cl := pair_length _ _ _
+
+theorem raw_window_facts (c : Curve) :
+    KeysTables.sigSniffNxp (2 * c.cl) = true ∧ sigCurve (2 * c.cl) = .ok c ∧ sigCoordLen c = c.cl ∧
+      2 * c.cl / 2 = c.cl ∧ c.sigSize = 2 * c.cl ∧ KeysTables.verifyCoordinateSize c.keySize = c.cl := by
+  cases c <;> decide
+
+theorem sigSniff_raw (c : Curve) (r s : Nat) : sigSniff (rawSig c r s) = .ok .nxp := by
+  simp [sigSniff, rawSig_length, (raw_window_facts c).1]
+
+theorem sigParse_raw (c : Curve) (r s : Nat) (hr : r < 256 ^ c.cl) (hs : s < 256 ^ c.cl) :
+    sigParse (rawSig c r s) = .ok ⟨r, s, c⟩ := by
+  obtain ⟨_, h2, _, h4, _, _⟩ := raw_window_facts c
+  unfold sigParse
+  rw [sigSniff_raw]
+  simp only [rawSig_length, h2, h4]
+  unfold rawSig
+  rw [take_pair, drop_pair, beDec_beEnc _ _ hr, beDec_beEnc _ _ hs]
+
+theorem sigExport_raw (c : Curve) (r s : Nat) (hr : r < 256 ^ c.cl) (hs : s < 256 ^ c.cl) :
+    sigExport ⟨r, s, c⟩ .nxp = .ok (rawSig c r s) := by
+  simp only [sigExport, (raw_window_facts c).2.2.1]
+  exact rawPair_ok _ _ _ hr hs
+
+theorem sigExport_raw_overflow (c : Curve) (r s : Nat) (h : 256 ^ c.cl ≤ r ∨ 256 ^ c.cl ≤ s) :
+    sigExport ⟨r, s, c⟩ .nxp = .error .other := by
+  simp only [sigExport, (raw_window_facts c).2.2.1, rawPair, toBytes]
+  by_cases hr : r < 256 ^ c.cl
+  · have hs : ¬ s < 256 ^ c.cl := by omega
+    simp [hr, hs]
+  · simp [hr]
+
+/-! ### `ECDSASignature` on DER signatures -/
+
+/-- inside the window of curve `c` the length is not taken for raw and `get_ecc_curve` answers `c` -/
+theorem der_window_facts (c : Curve) :
+    ∀ L, L < 200 → 2 * c.cl + 3 ≤ L → L ≤ 2 * c.cl + 8 →
+      KeysTables.sigSniffNxp L = false ∧ sigCurve L = .ok c := by
+  cases c <;> decide +kernel
+
+theorem window_small (c : Curve) (r s : Nat) (hw : LenWindow c r s) : derLen r s < 200 := by
+  obtain ⟨_, h2⟩ := hw
+  have := cl_values
+  cases c <;> omega
+
+theorem sigParse_der (c : Curve) (r s : Nat) (hw : LenWindow c r s) :
+    sigParse (derEncode r s) = .ok ⟨r, s, c⟩ := by
+  have hsmall := window_small c r s hw
+  obtain ⟨f1, f2⟩ := der_window_facts c (derLen r s) hsmall hw.1 hw.2
+  have hdec := derDecode_derEncode r s (by
+    have : (200 : Nat) < 2 ^ 32 := by decide
+    omega)
+  unfold sigParse sigSniff
+  simp only [derEncode_length, f1, hdec, f2]
+  simp
+
+/-! ### `serialize_signature`, `verify_signature`, `get_signature` -/
+
+theorem serialize_der (r s cl : Nat) (h : derLen r s < 2 ^ 32) :
+    serializeSignature (derEncode r s) cl = rawPair cl r s := by
+  simp [serializeSignature, derDecode_derEncode r s h]
+
+theorem verifyCandidates_raw (c : Curve) (r s : Nat) (hr : r < 256 ^ c.cl) (hs : s < 256 ^ c.cl) :
+    verifyCandidates c (rawSig c r s) = [derEncode r s, rawSig c r s] := by
+  obtain ⟨_, _, _, _, h5, h6⟩ := raw_window_facts c
+  unfold verifyCandidates
+  simp only [rawSig_length, h5, h6, if_true]
+  unfold rawSig
+  rw [take_pair, drop_pair, beDec_beEnc _ _ hr, beDec_beEnc _ _ hs]
+
+theorem mem_verifyCandidates (c : Curve) (sig : Bytes) : sig ∈ verifyCandidates c sig := by
+  unfold verifyCandidates
+  split <;> simp
+
+theorem getSignature_raw (c : Curve) (r s : Nat) (hr : r < 256 ^ c.cl) (hs : s < 256 ^ c.cl) (e : Option Enc) :
+    getSignature (rawSig c r s) e =
+      match e with
+      | none | some .nxp => .ok (rawSig c r s)
+      | some .der => .ok (derEncode r s)
+      | some .pem => .ok (rawSig c r s) := by
+  unfold getSignature
+  rw [sigParse_raw c r s hr hs]
+  have hx := sigExport_raw c r s hr hs
+  rcases e with _ | e
+  · simp only [Option.getD_none, hx]
+  · cases e
+    · simp only [Option.getD_some, hx]
+    · simp [sigExport]
+    · simp [sigExport]
+
+theorem getSignature_der (c : Curve) (r s : Nat) (hr : r < 256 ^ c.cl) (hs : s < 256 ^ c.cl)
+    (hw : LenWindow c r s) : getSignature (derEncode r s) none = .ok (rawSig c r s) := by
+  unfold getSignature
+  rw [sigParse_der c r s hw]
+  simp only [Option.getD_none, sigExport_raw c r s hr hs]
+
 end SpsdkVerif.Keys
